@@ -10,6 +10,7 @@ import (
 	"reflect"
 	"sort"
 	"strconv"
+	"strings"
 	"time"
 	"unicode/utf8"
 
@@ -110,6 +111,14 @@ func (m Model) stackField() string  { return fieldName(m.Set.StackField, "stack"
 
 // LevelText is the documented text form of a level under the settings.
 func (m Model) LevelText(l int) string {
+	switch m.Set.LevelMarshal {
+	case "upper":
+		m2 := m
+		m2.Set.LevelMarshal = ""
+		return strings.ToUpper(m2.LevelText(l))
+	case "total":
+		return TotalLevelText(zerolog.Level(l))
+	}
 	p := ""
 	if m.Set.LevelValues != nil {
 		p = string(*m.Set.LevelValues)
@@ -563,8 +572,7 @@ type LoggerModel struct {
 	Sampler *samplerModel
 	Stack   bool
 	Ctx     string
-	Dest    int  // index of destination writer (0 = root)
-	Dead    bool // obtained from a context that refused to store a Disabled logger: the package's no-op logger
+	Dest    int // index of destination writer (0 = root)
 }
 
 type samplerModel struct {
@@ -638,7 +646,9 @@ func (m Model) ApplyStep(par *LoggerModel, stp Step, ndest *int) *LoggerModel {
 		// *zerolog.Ctx(l.WithContext(ctx)): a struct copy of l — except that a Disabled logger is not
 		// stored in a context that carries none, and Ctx then returns the package's no-op logger
 		if l.Level == 7 && stp.N == 0 {
-			l.Dead = true
+			// zerolog.Nop(): a fresh Disabled logger writing to io.Discard — no context, no hooks,
+			// no sampler; descendants that lower the level run their hooks and write into the void
+			l = LoggerModel{Level: 7, Dest: -1}
 		}
 	case "sample":
 		l.Sampler = &samplerModel{kind: stp.Sampler, n: stp.N}
@@ -695,7 +705,7 @@ func (m Model) Event(l *LoggerModel, ev EventSpec) ExpEvent {
 	if m.Set.GlobalLow > 0 {
 		global = -m.Set.GlobalLow
 	}
-	if lvl == 7 || lvl < l.Level || lvl < global || l.Dead {
+	if lvl == 7 || lvl < l.Level || lvl < global {
 		return out
 	}
 	if l.Sampler != nil && !l.Sampler.sample() {
